@@ -356,6 +356,8 @@ def run(ctx):
     exporter = L().DomainExporter()
     path = ctx.rundir / "exported.pddl"
     ctx.simp = {a: has_simplified_condition(v) for a, v in w1["actions"].items()}
+    if not use_fixture and cfg.draw(6) == 0:
+        return revision_history(ctx, W, d1, exporter, path, ops)
     try:
         expected_len = len(exporter.extract_domain(d1).encode("utf-8"))
     except Exception as e:
@@ -461,6 +463,40 @@ def run(ctx):
     compare(ctx, ops, w2, w3, site + " (2nd round)", "second export/parse round")
     ctx.log("done", sorted(w3["actions"]))
     ctx.steps += 3
+
+
+def revision_history(ctx, W, d1, exporter, path, ops):
+    """history: the domain is exported; the SAME domain object is then revised in place through the object API (an
+    effect added to an action, or a literal removed from a nested disjunction of a precondition); it is exported again
+    by the same exporter over the same path.  The second file must describe the domain as it is now."""
+    site = "DomainExporter.export_domain -> DomainParser (the model was revised in place between two exports)"
+    try:
+        exporter.export_domain(d1, path)
+        str(d1)
+    except Exception as e:
+        raise Violation("C08/export-raised", "DomainExporter.export_domain", f"{type(e).__name__}: {e}")
+    r = None
+    for _ in range(3):
+        r = C.revise_model(ctx, W, d1, ops)
+        if r:
+            break
+    if not r:
+        ctx.probes["revision_not_possible"] += 1
+        return
+    W2, what = r
+    ctx.note(f"revision: {what}")
+    wb = walk(d1, "the revised domain object")
+    try:
+        exporter.export_domain(d1, path)
+    except Exception as e:
+        raise Violation("C08/export-raised", "DomainExporter.export_domain", f"after the revision: {type(e).__name__}: {e}")
+    on_disk = fs.read_real_bytes(path)
+    ctx.new_epoch()
+    d2 = reparse(ctx, path, {}, site, on_disk)
+    compare(ctx, ops, wb, walk(d2, site), site, f"second export after: {what}")
+    check_text(ctx, ops, on_disk, wb, False)
+    ctx.nontrivial = True
+    ctx.probes["revision_history_checked"] += 1
 
 
 def overwrite_same_path(ctx, W, text, path, exporter, ops, site):
